@@ -363,7 +363,10 @@ func instrumentFile(p *packages.Package, f *ast.File, fe *fileEdits) {
 			// utils/atomics are not instrumented inside, or every access would yield twice)
 			if p.PkgPath != "reservoir/utils/atomics" && isR6(obj, full) {
 				rtxt := fe.text(fset, sel.X)
-				if strings.HasPrefix(rtxt, "metrics.Global") {
+				if strings.HasPrefix(rtxt, "metrics.Global") && rtxt != "metrics.Global.Cache.BytesCached" && rtxt != "metrics.Global.Cache.CacheEntries" {
+					// pure statistics: no yield. The reported size and entry count are not (C12 is
+					// about them): a read of the real size followed by Set of the metric is a
+					// read-modify-write like any other.
 					return true
 				}
 				insertBefore(x, "R6")
